@@ -277,6 +277,13 @@ class Engine(
                     # slice that might exist, and save those for the new outer
                     # query, since putting those in a subquery would destroy
                     # the ordering.
+                    if not select.sort.columns_required <= select.columns:
+                        # ... unless the sort uses a column that this Select's
+                        # own Projection already hides: the new outer query
+                        # could not refer to it, so everything stays in the
+                        # subquery (where such a sort had no well-defined
+                        # meaning for the deduplicated rows anyway).
+                        return Select.apply_skip(select, projection=operation)
                     subquery = select.reapply_skip(sort=None, slice=None)
                     return Select.apply_skip(
                         subquery,
